@@ -243,7 +243,8 @@ def run_case(fx, log, c, rec, r):
         seq += 1
         rec.count("pipelined_invokes_sent")
     try:
-        cl = wire.RawClient(fx.location, timeout=10.0)
+        # a first message that is shorter than a header leaves the server waiting for more bytes (legitimately): don't wait long for a reply
+        cl = wire.RawClient(fx.location, timeout=10.0 if len(buf) >= 40 else 1.0)
     except OSError as x:
         rec.inconc("cannot connect: %r" % (x,))
         return
@@ -264,6 +265,15 @@ def run_case(fx, log, c, rec, r):
         except wire.WireError as x:
             rec.violation("malformed-reply", "first reply is not a well-formed message: %s" % x, pay)
             return
+        if first == "TIMEOUT":
+            # the server still waits for the rest of the first message: anything sent now would simply complete it.
+            # The peer gives up instead (half-close); the connection must then be closed without anything having run.
+            c = dict(c, after=0)
+            try:
+                cl.sock.shutdown(socket.SHUT_WR)
+            except OSError:
+                pass
+        cl.sock.settimeout(10.0)
         accepted = isinstance(first, wire.Msg) and first.type == wire.CONNECTOK
         replies_after = []
         if accepted:
